@@ -233,6 +233,29 @@ def run(ctx):
                  canonical="list_nd")
         evaluate("dtw_barycenter.dba_loop(use_c)", lambda s, c0: dtw_barycenter.dba_loop(s, c0, max_it=3, use_c=True), dargs,
                  True, canonical="list_nd")
+        # a start value chosen among ALL selected series (nb_initial_samples >= their number) involves no sampling: the
+        # call is repeatable whatever the state of the global random generator (duplicates -> ties between candidates)
+        # (two different series always tie: both row sums are their mutual distance)
+        dup = [list(x) for x in series[:2]] if it % 2 else [list(series[0])] + [list(x) for x in series[:rng.randint(1, len(series))]]
+        dupd = [np.array(x, dtype=float) for x in dup]
+        for uc_ in (False, True):
+            res.evaluations += 1
+            res.hit("dba_all_candidates_repeatable")
+            try:
+                outs_ = []
+                for rep_ in range(6):
+                    outs_.append(np.array(dtw_barycenter.dba_loop(dupd, None, max_it=1, thr=None, use_c=uc_,
+                                                                  nb_initial_samples=len(dupd) + rep_ % 2), dtype=float))
+                if any(o.shape != outs_[0].shape or not np.array_equal(o, outs_[0]) for o in outs_[1:]):
+                    res.violations.append({"clause": "repeating a call returns the same result",
+                                           "routine": "dba_loop(c=None, nb_initial_samples >= number of series, use_c=%s)" % uc_,
+                                           "series": dup, "results": [o.tolist() for o in outs_]})
+            except BaseException as ex:
+                if isinstance(ex, (KeyboardInterrupt, SystemExit)):
+                    raise
+                if len({len(x) for x in dup}) == 1:
+                    res.violations.append({"clause": "dba_loop(nb_initial_samples) raised", "series": dup,
+                                           "got": type(ex).__name__ + ":" + str(ex)[:100]})
         # real-valued series (sums that are not exact in binary): the Python average must not depend on whether the
         # values arrive as Python floats (lists, array.array) or as numpy.float64 (arrays)
         rseries = [[rng.uniform(-9, 9) for _ in s_] for s_ in series]
